@@ -81,6 +81,10 @@ def equiv(a, b):
 
 
 def generate(tape, tier="quick"):
+    if tape.chance(1, 30):
+        # metadata objects shared between slots and reused for a second composition (sim/shared.py, family SH)
+        from ..shared import gen_shared
+        return gen_shared(tape)
     if tape.chance(1, 60 if tier == "quick" else 25):
         # exhaustive sub-sweep: every ordered pair of the catalogue, both relations, in a seeded order
         pairs = tape.shuffle([(a, b) for a in NAMES for b in NAMES])
@@ -136,8 +140,16 @@ def generate(tape, tier="quick"):
             ops.append([k, a, b])
     return {"engine": "U", "ops": ops, "clear_first": tape.chance(1, 2)}
 
+RULE = RULE + (' A 1/30 share is family SH (sim/shared.py): 1-3 real CallbackGenerators on grids and units of their own feed the inputs of one real DebugConsumer; all inputs are declared with ONE request Info (grid unset, units unset or convertible), and the composition is built and run once or twice from the very same Info objects with different start times; oracles owned here: sh-run-raises, sh-units, sh-info.')
+REAL = list(REAL) + ["CallbackGenerator, DebugConsumer built twice from shared Info objects (family SH)"]
+
 
 def execute(sc):
+    if sc.get("engine") == "SH":
+        from ..shared import run_shared
+        r = run_shared(sc)
+        r["violations"] = [x for x in r["violations"] if x["oracle"] in ('sh-run-raises', 'sh-units', 'sh-info')]
+        return r
     viol = []
     first = {}
     kinds = set()
